@@ -40,12 +40,22 @@ def impl_solve(circ, hook=None, **build_kw):
         solmod._VERIF_MERGE_HOOK = old
 
 
+def hyp_tags(ctx, hyp):
+    """the hypotheses of the theorems about the elimination (NetD.WF, IdxWF, ExposureOK, non-empty), evaluated by the driver on
+    the circuit it was given: counted in the evidence, so that it states on how many generated inputs the theorems applied"""
+    if not hyp:
+        return
+    ok = all(hyp.get(k) for k in ("wf", "idx", "exposure", "nonempty"))
+    ctx.tag("hyp:elimination-theorems-apply" if ok else "hyp:outside:" + "+".join(k for k in ("wf", "idx", "exposure", "nonempty") if not hyp.get(k)))
+
+
 def model_solve(ctx, circ, sched=None):
     req = {"op": "solve"}
     req.update(gen.circuit_json(circ))
     if sched is not None:
         req["sched"] = [list(p) for p in sched]
     ans = ctx.driver.ask(req)
+    hyp_tags(ctx, ans.get("hyp"))
     if "T" in ans:
         n = len(circ["exposed"])
         flat = [z for row in ans["T"] for z in row]
